@@ -470,7 +470,13 @@ def check_matrix(ctx, spec):
             if nrows:
                 labels = label if isinstance(label, int) else range(label[0], label[0] + label[1])
                 if isinstance(label, int) or label[1] > 0:
-                    feats, labs = extract.Slicer(range(nf), labels).apply(tab)
+                    table = dsl.Table(make_schema([[f'c{j}', 'int'] for j in range(ncols)]))
+                    fcols = [table[f'c{j}'] for j in range(nf)]
+                    lcols = table[f'c{label}'] if isinstance(label, int) else [table[f'c{j}'] for j in labels]
+                    combined, builder = extract.Slicer.from_columns(fcols, lcols)
+                    if len(combined) != nf + (1 if isinstance(label, int) else label[1]):
+                        ctx.fail(spec, 'matrix:slicer', 'combined-columns', f'{name}: {combined}', [name])
+                    feats, labs = builder().apply(tab)
                     diff = rows_diff(feats, [row[:nf] for row in cells], 'features')
                     if not diff:
                         if isinstance(label, int):
